@@ -85,32 +85,65 @@ def until_search(rep, prog, rule="UNTIL-SEARCH"):
     """the search for the intermediate datetime in the zoned difference"""
     from .. import mir
     from ..guards import guards, strip_not
-    rep.rule(rule, "ZonedDifference::until_with_largest_unit (largest >= Day): (1) when both civil dates are equal the result is the "
-                   "exact elapsed time (a return of Timestamp::until guarded by an equality of the two civil dates): inside a fold the "
-                   "order of the clock times can be the reverse of the order of the instants, and a search for an intermediate "
-                   "datetime on the wrong side mixes signs; (2) no failing return of the search is selected by the direction of the "
-                   "difference (a test of `sign` against a constant): an overshoot is retried with one more day in both directions, "
-                   "otherwise ordinary backward differences that end in the second occurrence of a fold are errors")
+    rep.rule(rule, "ZonedDifference::until_with_largest_unit (largest >= Day): (1) whenever the order of the two civil dates is not the "
+                   "order of the two instants - the dates are equal, or reversed (a fold that straddles midnight: America/Goose_Bay "
+                   "went from 00:01-03 back to 23:01-04 of the previous day) - the result is the exact elapsed time: a return of "
+                   "Timestamp::until guarded by a comparison of the sign of (date2, date1) with the sign of (instant2, instant1). "
+                   "Equality of the dates alone covers only half of it; without the guard the search for an intermediate datetime "
+                   "runs on the wrong side and the calendar part and the remainder get opposite signs; (2) no failing return of "
+                   "the search is selected by the direction of the difference (a test of `sign` against a constant): an overshoot "
+                   "is retried with one more day in both directions, otherwise ordinary backward differences that end in the second "
+                   "occurrence of a fold are errors")
     f = prog.jiff("zoned::ZonedDifference::<'a>::until_with_largest_unit")
     T = Terms(f)
     cfg = mir.CFG(f)
     # (1)
-    same_date = False
+    def over_dates(t_):
+        return any(is_call(x, "DateTime::date") for x in walk(t_))
+
+    def sign_of(t_, dates):
+        """a t::sign(..) term over the civil dates (dates=True) or over the zoned values / instants (dates=False)"""
+        for x in walk(t_):
+            if is_call(x, "util::t::sign") and len(x[2]) == 2:
+                if dates and all(over_dates(a_) for a_ in x[2]):
+                    return True
+                if not dates and not any(over_dates(a_) for a_ in x[2]):
+                    return True
+        return False
+    same_date = order = False
     for bi, t in mir.iter_calls(f):
         if t.get("path", "").endswith("Timestamp::until"):
             for (c, truth, _sb) in guards(f, cfg, T, bi):
                 c2, tr2 = strip_not(c, truth)
-                if c2[0] == "call" and c2[1].rsplit("::", 1)[-1] in ("eq", "ne") and len(c2[2]) == 2 and \
-                        all(any(is_call(x, "DateTime::date") for x in walk(a_)) for a_ in c2[2]):
-                    is_eq = c2[1].rsplit("::", 1)[-1] == "eq"
+                if not (c2[0] == "call" and c2[1].rsplit("::", 1)[-1] in ("eq", "ne") and len(c2[2]) == 2):
+                    continue
+                is_eq = c2[1].rsplit("::", 1)[-1] == "eq"
+                a_, b_ = c2[2]
+                if all(over_dates(x_) for x_ in c2[2]) and not sign_of(c2, True):
                     if (is_eq and tr2 is True) or (not is_eq and tr2 is False):
                         same_date = True
-    if same_date:
-        rep.ok(rule, "same civil date", how="exact elapsed time under dt1.date() == dt2.date()", loc=f.loc())
+                if (sign_of(a_, True) and sign_of(b_, False)) or (sign_of(b_, True) and sign_of(a_, False)):
+                    # taken when the two signs differ
+                    if (is_eq and tr2 is False) or (not is_eq and tr2 is True):
+                        order = True
+            # other spellings of the same test: any guard of this return that *orders* the two civil dates (lt/le/gt/ge/cmp)
+            for (c, truth, _sb) in guards(f, cfg, T, bi):
+                for x in walk(c):
+                    if isinstance(x, tuple) and x and x[0] == "call" and x[1].rsplit("::", 1)[-1] in ("lt", "le", "gt", "ge", "cmp", "partial_cmp") \
+                            and len(x[2]) == 2 and all(over_dates(a_) for a_ in x[2]):
+                        order = True
+    if order:
+        rep.ok(rule, "civil date order vs instant order", how="exact elapsed time under sign(date2, date1) != sign(instant2, instant1)", loc=f.loc())
+    elif same_date:
+        rep.violation(rule, "civil date order vs instant order", "the exact elapsed time is returned only when the two civil dates are equal; "
+                      "when they are in the reverse order of the instants (1987-10-25T00:00:30-03 until 1987-10-24T23:01:00-04 in "
+                      "America/Goose_Bay, 30 seconds later) the calendar part is -1 day, the remainder +24h30s and the result "
+                      "\"1d 24h 30s ago\"", f.loc())
     else:
-        rep.violation(rule, "same civil date", "no return of the exact elapsed time guarded by equality of the two civil dates: two "
-                      "instants on one civil date inside a fold (01:30-04 and 01:10-05 on 2024-11-03 in America/New_York) get a "
-                      "calendar search on the wrong side and a span of mixed signs", f.loc())
+        rep.violation(rule, "civil date order vs instant order", "no return of the exact elapsed time guarded by a comparison of the order "
+                      "of the two civil dates with the order of the instants: two instants on one civil date inside a fold (01:30-04 "
+                      "and 01:10-05 on 2024-11-03 in America/New_York) get a calendar search on the wrong side and a span of mixed "
+                      "signs", f.loc())
     # (2)
     bad = []
     n_err = 0
